@@ -9,8 +9,9 @@
 From Coq Require Import String List NArith ZArith Bool Arith.
 From J5V.lib Require Import Text Outcome.
 From J5V.gen Require SetExtGen PanicGen WalkerGen.
-From J5V.model Require Import BclLexer BclParser CmpbFields CmpbDecls CmpbFront CmpbWalker.
-From J5V.proofs Require Import BclPosProofs BclBytesProofs CmpbFieldsProofs CmpbPanicProofs CmpbDeclsProofs CmpbSchemaProofs CmpbFrontProofs.
+From J5V.model Require Import Entity.
+From J5V.model Require Import BclLexer BclParser CmpbFields CmpbDecls CmpbFront CmpbWalker CmpbPackage CmpbEntity.
+From J5V.proofs Require Import BclPosProofs BclBytesProofs CmpbFieldsProofs CmpbPanicProofs CmpbDeclsProofs CmpbSchemaProofs CmpbFrontProofs CmpbPackageProofs CmpbEntityProofs.
 Import ListNotations.
 Local Open Scope string_scope.
 
@@ -268,6 +269,82 @@ Theorem C07_walker_census_agree : walker_sites_same_set = true /\ required_funcs
 Proof. exact (conj walker_sites_agree walker_required_funcs_exist). Qed.
 Print Assumptions C07_walker_census_agree.
 
+(* ======================================================================================================
+   A PACKAGE: PackageSet.loadPackage / loadLocalPackage / resolveDependencies with the resolveBaton chain
+   (model/CmpbPackage.v) around the per-file front end.  The link step is not modelled.
+   ====================================================================================================== *)
+(* "never hangs", loader part: the recursion over imports returns for EVERY bundle and every per-file
+   behaviour — the chain of packages being loaded holds distinct local names and cannot outgrow the bundle *)
+Theorem C07_package_load_terminates : forall fres b name, load_package fres b name <> OutOfFuel.
+Proof. exact load_package_terminates. Qed.
+Print Assumptions C07_package_load_terminates.
+
+(* it returns an error list (never a Go error without a list), and panics only if a file's front end does *)
+Theorem C07_package_load_total : forall walk b name,
+  match load_package (front_fres walk) b name with
+  | Ok _ => True
+  | Panic _ => exists f, In f (all_files b) /\ forall out, front_end walk true (sf_input f) <> Ok out
+  | _ => False
+  end.
+Proof. exact load_package_total. Qed.
+Print Assumptions C07_package_load_total.
+
+(* positions, full statement: every error of a package load is positioned inside a file of the bundle *)
+Definition C07_package_errors_positioned_statement : Prop := package_errors_positioned_statement.
+(* refuted: an import of a package nobody provides, and an import cycle, come back WITHOUT a position
+   (recorded findings "no files for package" / "circular dependency detected") *)
+Theorem C07_package_errors_positioned_refuted : ~ C07_package_errors_positioned_statement.
+Proof. exact package_errors_positioned_refuted. Qed.
+Print Assumptions C07_package_errors_positioned_refuted.
+Theorem C07_unknown_package_unpositioned :
+  load_package (front_fres demo_walk) unknown_pkg_bundle 1%N = Ok [mkPE ENoFiles None None].
+Proof. exact unknown_package_unpositioned. Qed.
+Print Assumptions C07_unknown_package_unpositioned.
+Theorem C07_package_cycle_unpositioned :
+  load_package (front_fres demo_walk) cycle_bundle 1%N = Ok [mkPE EPkgCycle None None].
+Proof. exact package_cycle_unpositioned. Qed.
+Print Assumptions C07_package_cycle_unpositioned.
+(* partial: every error is positioned inside a file of the bundle OR is one of those two loader errors.
+   Missing for the full statement: positions for the two loader errors; the link step (not modelled: its
+   errors are positioned in the generated file or, for a file cycle, not at all — recorded findings) *)
+Theorem C07_package_errors_positioned_partial : forall walk b name es, walker_contract walk ->
+  load_package (front_fres walk) b name = Ok es ->
+  Forall (fun e => perr_inside b e \/ (pe_stage e = ENoFiles /\ pe_pos e = None) \/ (pe_stage e = EPkgCycle /\ pe_pos e = None)) es.
+Proof. exact load_errors_positioned_partial. Qed.
+Print Assumptions C07_package_errors_positioned_partial.
+
+(* the import-order loader is one of the outcomes that SOME iteration order of resolveDependencies' map range
+   produces (load_kinds: the order-free description the CPkgLoad correspondence compares with) *)
+Theorem C07_loader_is_an_admissible_order : forall fuel b chain name es,
+  load (fun _ => FRFine) fuel b chain name = Ok es -> In (kind_of es) (load_kinds fuel b chain name).
+Proof. exact load_in_load_kinds. Qed.
+Print Assumptions C07_loader_is_an_admissible_order.
+
+(* ======================================================================================================
+   ENTITIES, by composition with C17 (the `ent` family's model of sourcewalk/entity.go, model/Entity.v):
+   an entity declaration expands (Entity.expand: total, C17_expand_total) into components that the converter
+   visits like hand-written declarations; model/CmpbEntity.v maps them onto the converter model.
+   ====================================================================================================== *)
+(* for EVERY entity declaration: the expansion returns components or one of the walker's two errors, and the
+   converter neither panics on them nor produces a file that fails to link (Entity.v has no
+   query.listRequest: that construct panics — recorded finding, C07_service_refuted) *)
+Theorem C07_entity_total_links : forall e,
+  match compile_entity e with
+  | Ok v => v <> VPanic /\ v <> VLinkErr
+  | Err _ => True
+  | _ => False
+  end.
+Proof. exact compile_entity_total. Qed.
+Print Assumptions C07_entity_total_links.
+
+(* accepted: a closed expansion (C17: closed exactly when the user's own references resolve) with well-formed
+   fields, existing path parameters and known HTTP verbs converts without an error and every file links *)
+Theorem C07_entity_accepted : forall pok cs,
+  closed cs = true -> forallb ofield_ok (Entity.fields_of cs) = true -> forallb (comp_clean pok) cs = true ->
+  entity_verdict pok cs = VOk.
+Proof. exact entity_accepted. Qed.
+Print Assumptions C07_entity_accepted.
+
 (* ---- non-vacuity: concrete members of the language exercising rules, list rules, wrappers *)
 Example C07_example :
   let p := mkProp false (Array (Some (TInteger I64 (Some (mkIR true true (Some true) None false)) true)) (Some true) true) true false in
@@ -308,3 +385,21 @@ Proof.
   split; [exact demo_walk_returns|]. split; [exact demo_walk_contract|].
   repeat split; vm_compute; reflexivity.
 Qed.
+
+(* an entity with data, an object reference to a schema of its own, events, a command with a raw response,
+   a summary, a query with events in Get: accepted; the same with a reference to a missing object: rejected *)
+Example C07_example_entity :
+  let str n := mkU (bs n) (KScalar 9 (bs "string")) false false in
+  let key := mkK (mkU (bs "fooId") (KKey true None None) false false) false in
+  let e := mkE (bs "foo.v1") (bs "Foo") [] [key] [str "name"; mkU (bs "part") (KObject (bs "Part")) false false]
+               [bs "ACTIVE"; bs "INACTIVE"] [mkEv (bs "Create") [str "name"]; mkEv (bs "Archive") []]
+               [mkC None None [mkM (bs "Rename") 2 (bs "rename") [mkU (bs "name") (KScalar 9 (bs "string")) true false] None]]
+               [mkS [] [str "name"]] (Some (mkQ true [])) [SObject (bs "Part") [str "x"]] in
+  let bad := mkE (bs "foo.v1") (bs "Foo") [] [key] [mkU (bs "part") (KObject (bs "Missing")) false false]
+               [bs "ACTIVE"] [] [] [] None [] in
+  compile_entity e = Ok VOk /\ compile_entity bad = Ok VConvErr
+  /\ match expand e with
+     | Ok cs => closed cs = true /\ forallb ofield_ok (Entity.fields_of cs) = true /\ forallb (comp_clean true) cs = true
+     | _ => False
+     end.
+Proof. cbv zeta. vm_compute. repeat split. Qed.
